@@ -308,7 +308,10 @@ theorem parse_rejects_of_no_case (g : GenOut) (input : Dyn)
 
 /-- names `Aaa` (deprecated), `Bbb`, `Ccc` of one value -/
 def legacyWitness : FileDef :=
-  ⟨[⟨"E", ⟨8, true⟩⟩], [⟨"Aaa", "E", 1, true⟩, ⟨"Bbb", "E", 1, false⟩, ⟨"Ccc", "E", 1, false⟩]⟩
+  ⟨[{ name := "E", kind := ⟨8, true⟩ }],
+   [{ name := "Aaa", ty := "E", val := 1, deprecated := true },
+    { name := "Bbb", ty := "E", val := 1, deprecated := false },
+    { name := "Ccc", ty := "E", val := 1, deprecated := false }]⟩
 
 /-- the pinned `ValueDeduplicatedSet` never clears `addedDeprecated`: after the deprecated `Aaa`
 was replaced by `Bbb`, `Ccc` replaces it again, and `String()`/`StringValues()` say `Ccc` although
@@ -319,10 +322,10 @@ theorem legacy_string_violates :
     IsPrimary legacyWitness "E" 1 "Bbb" ∧ ¬ IsPrimary legacyWitness "E" 1 "Ccc" ∧
     (genType {} legacyWitness "E").string 1 = "Bbb" := by
   refine ⟨by decide, by decide, ?_, ?_, by decide⟩
-  · exact ⟨⟨"Bbb", "E", 1, false⟩, by decide, rfl, rfl, rfl, Or.inl ⟨rfl, by decide⟩⟩
+  · exact ⟨{ name := "Bbb", ty := "E", val := 1, deprecated := false }, by decide, rfl, rfl, rfl, Or.inl ⟨rfl, by decide⟩⟩
   · intro h
     have hb : IsPrimary legacyWitness "E" 1 "Bbb" :=
-      ⟨⟨"Bbb", "E", 1, false⟩, by decide, rfl, rfl, rfl, Or.inl ⟨rfl, by decide⟩⟩
+      ⟨{ name := "Bbb", ty := "E", val := 1, deprecated := false }, by decide, rfl, rfl, rfl, Or.inl ⟨rfl, by decide⟩⟩
     exact absurd (primary_unique h hb) (by decide)
 
 /-! ## non-vacuity -/
@@ -332,7 +335,7 @@ type, a duplicated value with a deprecated name), its names are distinct up to c
 theorems above compute on it -/
 example : Accepted legacyWitness "E" ⟨8, true⟩ ∧ NamesDistinctFold legacyWitness "E" ∧
     Defined legacyWitness "E" 1 ∧ ¬ Defined legacyWitness "E" 2 ∧
-    (genType ⟨true⟩ legacyWitness "E").parseString "bBB" = some 1 ∧
+    (genType { caseInsensitive := true } legacyWitness "E").parseString "bBB" = some 1 ∧
     (genType {} legacyWitness "E").parseString "bBB" = none ∧
     (genType {} legacyWitness "E").string 2 = "UndefinedE:2" :=
   ⟨⟨by decide, by decide, by decide⟩, by decide, by decide, by decide, by decide, by decide, by decide⟩
